@@ -2,7 +2,7 @@
    Model/Curve.v.  Real-number statements are at T := R (Base/NumR.v). *)
 From Coq Require Import Reals ZArith List Bool Lra Lia Sorting.Permutation Sorting.Sorted Psatz.
 From Coquelicot Require Import Coquelicot.
-From RL Require Import Base.Num Base.Str Base.NumR Base.Outcome Model.Dual Model.Number Model.Curve.
+From RL Require Import Base.Num Base.Str Base.NumR Base.Outcome Model.Dual Model.Number Model.Curve Proofs.NumRP Proofs.DualP.
 Import ListNotations.
 Local Open Scope nat_scope.
 
@@ -870,3 +870,1094 @@ Proof.
   destruct (retime_sorted m ND) as [A B]. split; auto. split; [reflexivity|]. split; [exact A|].
   rewrite (Permutation_length B), map_length. exact L.
 Qed.
+
+(* ====================================================================================== *)
+(* Part E: derivative-order switches (C12): tags, values, names, index value *)
+Local Open Scope nat_scope.
+
+(* ====================================================================================== *)
+(* Part E: derivative-order switches (C12): tags, values, names *)
+Lemma mapi_from_ext {A B} (f g : nat -> A -> B) l : forall k,
+  (forall i x, nth_error l i = Some x -> f (k + i) x = g (k + i) x) -> mapi_from k f l = mapi_from k g l.
+Proof.
+  induction l as [|a l IH]; intros k E; cbn; auto. f_equal.
+  - specialize (E 0 a eq_refl). rewrite Nat.add_0_r in E. exact E.
+  - apply IH. intros i x Hx. specialize (E (S i) x Hx). rewrite <- plus_n_Sm in E. exact E.
+Qed.
+Lemma mapi_from_map {A B C} (h : B -> C) (f : nat -> A -> B) l : forall k,
+  map h (mapi_from k f l) = mapi_from k (fun i x => h (f i x)) l.
+Proof. induction l as [|a l IH]; intros k; cbn; auto. f_equal. apply IH. Qed.
+Lemma mapi_from_const {A B} (f : A -> B) l : forall k, mapi_from k (fun _ x => f x) l = map f l.
+Proof. induction l as [|a l IH]; intros k; cbn; auto. f_equal. apply IH. Qed.
+Lemma mapi_from_nth_error {A B} (f : nat -> A -> B) l : forall k i,
+  nth_error (mapi_from k f l) i = option_map (f (k + i)) (nth_error l i).
+Proof.
+  induction l as [|a l IH]; intros k [|i]; cbn; auto.
+  - rewrite Nat.add_0_r. reflexivity.
+  - rewrite IH. rewrite <- plus_n_Sm. reflexivity.
+Qed.
+Lemma mapi_from_length {A B} (f : nat -> A -> B) l : forall k, length (mapi_from k f l) = length l.
+Proof. induction l as [|a l IH]; intros k; cbn; auto. Qed.
+
+Lemma tags_nth id n i : i < n -> nth i (get_variable_tags id n) [] = var_tag id i.
+Proof.
+  intros L. unfold get_variable_tags.
+  rewrite (nth_indep _ [] (var_tag id 0)) by (rewrite map_length, seq_length; lia).
+  rewrite map_nth. rewrite seq_nth by lia. reflexivity.
+Qed.
+
+Section Switch.
+  Context {T : Type} `{Num T}.
+
+  Lemma dedup_single (t : name) : dedup [t] = [t].
+  Proof. reflexivity. Qed.
+  Lemma dual_new_single (y : T) t : dual_new y [t] = mkDual y [t] [n1].
+  Proof. reflexivity. Qed.
+  Lemma dual2_new_single (y : T) t : dual2_new y [t] = mkDual2 y [t] [n1] [[n0]].
+  Proof. reflexivity. Qed.
+
+  (* --- C12_tags *)
+  Lemma set_order_tags (c : curve T) m : c_nodes c = NsF m ->
+    c_nodes (set_ad_order c OOne) =
+      NsD (mapi (fun i kv => (fst kv, mkDual (snd kv) [var_tag (c_id c) i] [n1])) m) /\
+    c_nodes (set_ad_order c OTwo) =
+      NsD2 (mapi (fun i kv => (fst kv, mkDual2 (snd kv) [var_tag (c_id c) i] [n1] [[n0]])) m).
+  Proof.
+    intros En. unfold set_ad_order. rewrite En. cbn [c_nodes nodes_keys]. rewrite map_length.
+    split; f_equal; unfold mapi; apply mapi_from_ext; intros i [k y] Hx; cbn [fst snd Nat.add];
+      rewrite tags_nth by (apply nth_error_Some; congruence); reflexivity.
+  Qed.
+
+  (* --- C12_values: real parts of nodes and of look-ups *)
+  Definition real_nodes (n : nodes T) : list (Z * T) :=
+    match n with
+    | NsF m => m
+    | NsD m => map (fun kv => (fst kv, re (snd kv))) m
+    | NsD2 m => map (fun kv => (fst kv, re2 (snd kv))) m
+    end.
+  Lemma map_pair_id {A B} (m : list (A * B)) : map (fun kv => (fst kv, snd kv)) m = m.
+  Proof. induction m as [|[a b] m IH]; cbn; congruence. Qed.
+  Lemma set_order_fields (c : curve T) o :
+    c_rule (set_ad_order c o) = c_rule c /\ c_id (set_ad_order c o) = c_id c /\ c_base (set_ad_order c o) = c_base c.
+  Proof. unfold set_ad_order. destruct o, (c_nodes c); cbn; auto. Qed.
+  Lemma set_order_real_nodes (c : curve T) o : real_nodes (c_nodes (set_ad_order c o)) = real_nodes (c_nodes c).
+  Proof.
+    unfold set_ad_order. destruct o, (c_nodes c) as [m|m|m] eqn:En; cbn [c_nodes real_nodes]; try rewrite En;
+      cbn [real_nodes]; auto; unfold mapi;
+      try (rewrite mapi_from_map;
+           rewrite (mapi_from_ext _ (fun _ kv => (fst kv, snd kv))) by (intros; reflexivity);
+           rewrite mapi_from_const; apply map_pair_id);
+      try (rewrite map_map; cbn [fst snd]; try apply map_pair_id; apply map_ext; intros; reflexivity).
+  Qed.
+  Lemma fold_set_order_real_nodes ops : forall (c : curve T),
+    real_nodes (c_nodes (fold_left set_ad_order ops c)) = real_nodes (c_nodes c) /\
+    c_rule (fold_left set_ad_order ops c) = c_rule c /\ c_id (fold_left set_ad_order ops c) = c_id c /\
+    c_base (fold_left set_ad_order ops c) = c_base c.
+  Proof.
+    induction ops as [|o ops IH]; intros c; cbn; auto.
+    destruct (IH (set_ad_order c o)) as (A & B & C & D). destruct (set_order_fields c o) as (B' & C' & D').
+    rewrite A, B, C, D, set_order_real_nodes. auto.
+  Qed.
+
+  Record hom {U} (o : iops T U) (phi : U -> T) : Prop := mkHom {
+    h_add : forall a b, phi (io_add o a b) = nadd (phi a) (phi b);
+    h_sub : forall a b, phi (io_sub o a b) = nsub (phi a) (phi b);
+    h_mulf : forall a r, phi (io_mulf o a r) = nmul (phi a) r;
+    h_log : forall a, phi (io_log o a) = nln (phi a);
+    h_exp : forall a, phi (io_exp o a) = nexp (phi a) }.
+
+  Lemma re_align p (a b : dual T) : re (fst (align p a b)) = re a /\ re (snd (align p a b)) = re b.
+  Proof. unfold align, to_union_vars, to_new_vars. destruct (vars_cmp p (vs a) (vs b)); cbn; auto. Qed.
+  Lemma re2_align p (a b : dual2 T) : re2 (fst (align2 p a b)) = re2 a /\ re2 (snd (align2 p a b)) = re2 b.
+  Proof. unfold align2, to_union_vars2, to_new_vars2. destruct (vars_cmp p (vs2 a) (vs2 b)); cbn; auto. Qed.
+  Lemma hom_d : hom iops_d re.
+  Proof.
+    constructor; cbn; intros; auto.
+    - unfold dadd. destruct (re_align false a b) as [A B]. destruct (align false a b). cbn in *. congruence.
+    - unfold dsub. destruct (re_align false a b) as [A B]. destruct (align false a b). cbn in *. congruence.
+  Qed.
+  Lemma hom_d2 : hom iops_d2 re2.
+  Proof.
+    constructor; cbn; intros; auto.
+    - unfold d2add. destruct (re2_align false a b) as [A B]. destruct (align2 false a b). cbn in *. congruence.
+    - unfold d2sub. destruct (re2_align false a b) as [A B]. destruct (align2 false a b). cbn in *. congruence.
+  Qed.
+
+  Section Hom.
+    Context {U : Type} (o : iops T U) (phi : U -> T) (Hh : hom o phi).
+    Lemma hom_linear x1 y1 x2 y2 x :
+      phi (linear_interp o x1 y1 x2 y2 x) = linear_interp iops_f x1 (phi y1) x2 (phi y2) x.
+    Proof. unfold linear_interp. rewrite (h_add o phi Hh), (h_mulf o phi Hh), (h_sub o phi Hh). reflexivity. Qed.
+    Lemma hom_loglinear x1 y1 x2 y2 x :
+      phi (log_linear_interp o x1 y1 x2 y2 x) = log_linear_interp iops_f x1 (phi y1) x2 (phi y2) x.
+    Proof. unfold log_linear_interp. rewrite (h_exp o phi Hh), hom_linear, !(h_log o phi Hh). reflexivity. Qed.
+    Ltac hom_rw o phi Hh := repeat first [rewrite (h_add o phi Hh) | rewrite (h_sub o phi Hh) | rewrite (h_mulf o phi Hh)
+                                          | rewrite (h_log o phi Hh) | rewrite (h_exp o phi Hh)].
+    Lemma hom_zero x0 x1 y1 x2 y2 x :
+      phi (linear_zero_interp o x0 x1 y1 x2 y2 x) = linear_zero_interp iops_f x0 x1 (phi y1) x2 (phi y2) x.
+    Proof.
+      unfold linear_zero_interp. cbn [io_exp io_mulf io_add io_sub io_log iops_f].
+      destruct (neqb (nsub x1 x0) n0); hom_rw o phi Hh; reflexivity.
+    Qed.
+    Lemma interp_at_hom r m x :
+      omap phi (interp_at o r m x) = interp_at iops_f r (map (fun kv => (fst kv, phi (snd kv))) m) x.
+    Proof.
+      unfold interp_at.
+      assert (K : map fst (map (fun kv : Z * U => (fst kv, phi (snd kv))) m) = map fst m).
+      { rewrite map_map. apply map_ext. reflexivity. }
+      rewrite K.
+      assert (G : forall i, get_index (map (fun kv : Z * U => (fst kv, phi (snd kv))) m) i =
+                            omap (fun kv => (fst kv, phi (snd kv))) (get_index m i)).
+      { intros i. unfold get_index. rewrite nth_error_map. destruct (nth_error m i); reflexivity. }
+      destruct r; try reflexivity; destruct (index_left Z.leb Z.eqb (map fst m) x) as [i| |]; cbn [obind omap]; auto;
+        rewrite !G; repeat (match goal with |- context [get_index m ?j] => destruct (get_index m j) as [[? ?]| |] end;
+                            cbn [obind omap fst snd]; auto).
+      - rewrite hom_loglinear. reflexivity.
+      - rewrite hom_linear. reflexivity.
+      - rewrite hom_zero. reflexivity.
+      - destruct (x >=? z0)%Z; reflexivity.
+      - destruct (x <=? z)%Z; reflexivity.
+    Qed.
+  End Hom.
+
+  Lemma value_real_part (c : curve T) x :
+    omap num_real (interpolated_value c x) = interp_at iops_f (c_rule c) (real_nodes (c_nodes c)) x.
+  Proof.
+    unfold interpolated_value. destruct (c_nodes c) as [m|m|m]; cbn [real_nodes].
+    - destruct (interp_at iops_f (c_rule c) m x); reflexivity.
+    - rewrite <- (interp_at_hom iops_d re hom_d). destruct (interp_at iops_d (c_rule c) m x); reflexivity.
+    - rewrite <- (interp_at_hom iops_d2 re2 hom_d2). destruct (interp_at iops_d2 (c_rule c) m x); reflexivity.
+  Qed.
+  Lemma switches_keep_values ops (c : curve T) :
+    real_nodes (c_nodes (fold_left set_ad_order ops c)) = real_nodes (c_nodes c) /\
+    forall x, omap num_real (interpolated_value (fold_left set_ad_order ops c) x) =
+              omap num_real (interpolated_value c x).
+  Proof.
+    destruct (fold_set_order_real_nodes ops c) as (A & B & _). split; auto.
+    intros x. rewrite !value_real_part, A, B. reflexivity.
+  Qed.
+
+  (* --- C12_names_kept *)
+  Definition node_vars (n : nodes T) : list (list name) :=
+    match n with
+    | NsF m => map (fun _ => []) m
+    | NsD m => map (fun kv => vs (snd kv)) m
+    | NsD2 m => map (fun kv => vs2 (snd kv)) m
+    end.
+  Definition node_duals (n : nodes T) : list (list T) :=
+    match n with
+    | NsF m => map (fun _ => []) m
+    | NsD m => map (fun kv => du (snd kv)) m
+    | NsD2 m => map (fun kv => du2 (snd kv)) m
+    end.
+  Lemma set_order_12_keeps (c : curve T) o : curve_ad c <> OZero -> o <> OZero ->
+    curve_ad (set_ad_order c o) = o /\
+    node_vars (c_nodes (set_ad_order c o)) = node_vars (c_nodes c) /\
+    node_duals (c_nodes (set_ad_order c o)) = node_duals (c_nodes c).
+  Proof.
+    unfold curve_ad, set_ad_order. intros NZ NO.
+    destruct o, (c_nodes c) as [m|m|m] eqn:En; try congruence; cbn [c_nodes]; rewrite ?En;
+      cbn [node_vars node_duals]; rewrite ?map_map; auto.
+  Qed.
+  Lemma switches_12_keep ops : forall (c : curve T), curve_ad c <> OZero -> List.Forall (fun o => o <> OZero) ops ->
+    node_vars (c_nodes (fold_left set_ad_order ops c)) = node_vars (c_nodes c) /\
+    node_duals (c_nodes (fold_left set_ad_order ops c)) = node_duals (c_nodes c).
+  Proof.
+    induction ops as [|o ops IH]; intros c NZ F; cbn; auto.
+    inversion F; subst. destruct (set_order_12_keeps c o NZ) as (A & B & C); auto.
+    destruct (IH (set_ad_order c o)) as (D & E); auto; [rewrite A; auto|]. rewrite D, E. auto.
+  Qed.
+End Switch.
+
+(* --- C12_tags through the Python-facing constructor (numbering after the sort) *)
+Section TagsPy.
+  Context {T : Type} `{Num T}.
+  Definition all_floats (raw : list (Z * number T)) : Prop := forall kv, In kv raw -> exists f, snd kv = NF f.
+
+  Lemma into_order_tags (raw : list (Z * number T)) id : all_floats raw ->
+    nodes_into_order raw OOne id =
+      NsD (mapi (fun i kv => (fst kv, mkDual (num_real (snd kv)) [var_tag id i] [n1])) (sort_keys Z.leb raw)) /\
+    nodes_into_order raw OTwo id =
+      NsD2 (mapi (fun i kv => (fst kv, mkDual2 (num_real (snd kv)) [var_tag id i] [n1] [[n0]])) (sort_keys Z.leb raw)).
+  Proof.
+    intros AF. unfold nodes_into_order.
+    split; f_equal; unfold mapi; apply mapi_from_ext; intros i [k v] Hx; cbn [fst snd Nat.add];
+      (rewrite tags_nth by (rewrite <- (sort_keys_length raw); apply nth_error_Some; congruence));
+      (assert (I : In (k, v) raw) by (eapply Permutation_in; [apply sort_keys_perm|eapply nth_error_In; eauto]));
+      destruct (AF _ I) as [f E]; cbn in E; subst v; reflexivity.
+  Qed.
+
+  Lemma sorted_ts (l : list Z) : StronglySorted Z.lt l -> NoDup (map ts_of_ns l) ->
+    StronglySorted Z.lt (map ts_of_ns l).
+  Proof.
+    induction 1 as [|a l S IH F]; cbn; intros ND; constructor.
+    - apply IH. inversion ND; auto.
+    - inversion ND as [|? ? NI _]; subst. rewrite Forall_forall in *. intros y Hy.
+      apply in_map_iff in Hy. destruct Hy as (b & E & Hb). subst y.
+      assert ((a < b)%Z) by auto.
+      assert ((ts_of_ns a <= ts_of_ns b)%Z) by (unfold ts_of_ns; apply Z.div_le_mono; lia).
+      assert (ts_of_ns a <> ts_of_ns b) by (intros C; apply NI; rewrite C; apply in_map; auto).
+      lia.
+  Qed.
+
+  Lemma retime_of_sorted {V} (m : list (Z * V)) : ksorted m -> NoDup (tskeys m) ->
+    sort_keys Z.leb (retime m) = map (fun kv => (ts_of_ns (fst kv), snd kv)) m /\
+    ksorted (map (fun kv => (ts_of_ns (fst kv), snd kv)) m).
+  Proof.
+    intros Hs ND. unfold retime.
+    assert (K : keys (map (fun kv : Z * V => (ts_of_ns (fst kv), snd kv)) m) = map ts_of_ns (keys m)).
+    { unfold keys. rewrite !map_map. reflexivity. }
+    assert (ND' : NoDup (map ts_of_ns (keys m))) by (unfold keys; rewrite map_map; exact ND).
+    assert (KS : ksorted (map (fun kv : Z * V => (ts_of_ns (fst kv), snd kv)) m)).
+    { unfold ksorted. rewrite K. apply sorted_ts; auto. }
+    rewrite im_from_iter_nodup by (rewrite K; auto). split; auto. apply sort_keys_id; auto.
+  Qed.
+
+  Lemma new_py_tags (raw : list (Z * number T)) r id b : all_floats raw -> NoDup (tskeys raw) ->
+    c_nodes (curve_new_py raw r OOne id b) =
+      NsD (mapi (fun i kv => (ts_of_ns (fst kv), mkDual (num_real (snd kv)) [var_tag id i] [n1])) (sort_keys Z.leb raw)) /\
+    c_nodes (curve_new_py raw r OTwo id b) =
+      NsD2 (mapi (fun i kv => (ts_of_ns (fst kv), mkDual2 (num_real (snd kv)) [var_tag id i] [n1] [[n0]])) (sort_keys Z.leb raw)) /\
+    StronglySorted Z.lt (map (fun kv => ts_of_ns (fst kv)) (sort_keys Z.leb raw)).
+  Proof.
+    intros AF ND. destruct (into_order_tags raw id AF) as [E1 E2].
+    assert (S0 : ksorted (sort_keys Z.leb raw)) by (apply sort_keys_sorted; apply ts_nodup_ns; auto).
+    assert (ND0 : NoDup (tskeys (sort_keys Z.leb raw))).
+    { eapply Permutation_NoDup; [|exact ND]. unfold tskeys. apply Permutation_map, Permutation_sym, sort_keys_perm. }
+    unfold curve_new_py, curve_try_new. cbn [c_nodes]. rewrite E1, E2. cbn [nodes_ts_from nodes_sort_keys].
+    assert (G : forall {V} (F : nat -> Z * number T -> Z * V), (forall i kv, fst (F i kv) = fst kv) ->
+              sort_keys Z.leb (retime (mapi F (sort_keys Z.leb raw))) =
+              mapi (fun i kv => (ts_of_ns (fst kv), snd (F i kv))) (sort_keys Z.leb raw)).
+    { intros V F HF.
+      assert (KF : keys (mapi F (sort_keys Z.leb raw)) = keys (sort_keys Z.leb raw)).
+      { unfold keys, mapi. rewrite mapi_from_map. rewrite (mapi_from_ext _ (fun _ kv => fst kv)) by (intros; apply HF).
+        apply mapi_from_const. }
+      destruct (retime_of_sorted (mapi F (sort_keys Z.leb raw))) as [A _].
+      - unfold ksorted. rewrite KF. exact S0.
+      - unfold tskeys in *. rewrite <- (map_map fst ts_of_ns). fold (keys (mapi F (sort_keys Z.leb raw))). rewrite KF.
+        unfold keys. rewrite map_map. exact ND0.
+      - rewrite A. unfold mapi. rewrite mapi_from_map. apply mapi_from_ext. intros i kv _. rewrite HF. reflexivity. }
+    split; [|split].
+    - f_equal. rewrite G by reflexivity. reflexivity.
+    - f_equal. rewrite G by reflexivity. reflexivity.
+    - destruct (retime_of_sorted (sort_keys Z.leb raw) S0 ND0) as [_ B]. unfold ksorted, keys in B.
+      rewrite map_map in B. exact B.
+  Qed.
+End TagsPy.
+
+(* --- C12_index *)
+Local Open Scope R_scope.
+Definition num_kind {T} (x : number T) : adorder := match x with NF _ => OZero | ND _ => OOne | ND2 _ => OTwo end.
+
+Lemma index_value_spec (c : curveR) x :
+  (c_base c = None -> index_value c x = Err) /\
+  (forall ib k0, c_base c = Some ib -> first_key (c_nodes c) = Ok k0 ->
+     ((x < k0)%Z -> index_value c x = Ok (NF 0)) /\
+     ((k0 <= x)%Z -> forall v, interpolated_value c x = Ok v ->
+        exists w, index_value c x = Ok w /\ num_kind w = num_kind v /\
+                  (num_real v <> 0 -> num_real w = ib / num_real v))).
+Proof.
+  unfold index_value. split; [intros E; rewrite E; reflexivity|].
+  intros ib k0 E K. rewrite E, K. cbn [obind]. split.
+  - intros L. destruct (Z.ltb_spec x k0); [reflexivity|lia].
+  - intros L v V. destruct (Z.ltb_spec x k0); [lia|]. rewrite V. cbn [obind].
+    destruct v as [f|d|d]; cbn.
+    + eexists; split; [reflexivity|]. split; auto.
+    + eexists; split; [reflexivity|]. split; auto. intros NZ. unfold nm1. cbn.
+      replace (- (1)) with (-1) by lra. rewrite Rpowf_m1 by auto. field; auto.
+    + eexists; split; [reflexivity|]. split; auto. intros NZ. unfold nm1. cbn.
+      replace (- (1)) with (-1) by lra. rewrite Rpowf_m1 by auto. field; auto.
+Qed.
+
+(* ====================================================================================== *)
+(* Part F: two-variable calculus used for the Hessian statement *)
+Local Open Scope R_scope.
+
+(* R-specialised derivative wrappers *)
+Lemma dR_comp (f g : R -> R) x df dg : is_derive f (g x) df -> is_derive g x dg -> is_derive (fun t:R => f (g t)) x (dg * df).
+Proof. intros. apply (is_derive_comp (K:=R_AbsRing) (V:=R_NormedModule) f g x df dg); auto. Qed.
+Lemma dR_const (c x : R) : is_derive (fun _ : R => c) x 0.
+Proof. apply (is_derive_const (K:=R_AbsRing) (V:=R_NormedModule) c x). Qed.
+Lemma dR_shift (f : R -> R) (c l : R) : is_derive f c l -> is_derive (fun s => f (c + s)) 0 l.
+Proof.
+  intros Hf. replace l with (1 * l) by ring.
+  apply (dR_comp f (fun s => c + s) 0 l 1).
+  - replace (c + 0) with c by ring. exact Hf.
+  - auto_derive; auto.
+Qed.
+
+Inductive sel := SL | SR | SN.
+Definition sL (s : sel) : R := match s with SL => 1 | _ => 0 end.
+Definition sR (s : sel) : R := match s with SR => 1 | _ => 0 end.
+
+Section Hess2.
+  Variables (G G1 G2 : R -> R -> R) (u0 v0 G11 G12 G21 G22 : R).
+  Hypothesis Pu : 0 < u0.
+  Hypothesis Pv : 0 < v0.
+  Hypothesis HA : forall u v, 0 < u -> 0 < v -> is_derive (fun t => G t v) u (G1 u v).
+  Hypothesis HB : forall u v, 0 < u -> 0 < v -> is_derive (fun t => G u t) v (G2 u v).
+  Hypothesis H11 : is_derive (fun t => G1 t v0) u0 G11.
+  Hypothesis H12 : is_derive (fun t => G1 u0 t) v0 G12.
+  Hypothesis H21 : is_derive (fun t => G2 t v0) u0 G21.
+  Hypothesis H22 : is_derive (fun t => G2 u0 t) v0 G22.
+
+  Definition hsel (sa sb : sel) : R :=
+    match sa, sb with
+    | SL, SL => G11 | SL, SR => G12 | SR, SL => G21 | SR, SR => G22 | _, _ => 0
+    end.
+  Definition gsel (sa : sel) : R := match sa with SL => G1 u0 v0 | SR => G2 u0 v0 | SN => 0 end.
+
+  Lemma pos_near c : 0 < c -> locally 0 (fun s => 0 < c + s).
+  Proof.
+    intros P. exists (mkposreal c P). intros s Hs. unfold ball in Hs. cbn in Hs. unfold AbsRing_ball, abs, minus, plus, opp in Hs.
+    cbn in Hs. apply Rabs_def2 in Hs. lra.
+  Qed.
+
+  Lemma grad_sel sa : is_derive (fun s => G (u0 + sL sa * s) (v0 + sR sa * s)) 0 (gsel sa).
+  Proof.
+    destruct sa; cbn.
+    - apply (is_derive_ext (fun s => G (u0 + s) (v0))).
+      + intros t. f_equal; ring.
+      + apply (dR_shift (fun t => G t v0)). apply HA; auto.
+    - apply (is_derive_ext (fun s => G u0 (v0 + s))).
+      + intros t. f_equal; ring.
+      + apply (dR_shift (fun t => G u0 t)). apply HB; auto.
+    - apply (is_derive_ext (fun s => G u0 v0)).
+      + intros t. f_equal; ring.
+      + apply dR_const.
+  Qed.
+
+  Lemma hess_sel sa sb : exists g1 : R -> R,
+    locally 0 (fun q => is_derive (fun p => G (u0 + sL sa * p + sL sb * q) (v0 + sR sa * p + sR sb * q)) 0 (g1 q)) /\
+    is_derive g1 0 (hsel sa sb).
+  Proof.
+    destruct sa.
+    - (* a moves u *)
+      exists (fun q => G1 (u0 + sL sb * q) (v0 + sR sb * q)). split.
+      + assert (Lu : locally 0 (fun q => 0 < u0 + sL sb * q)).
+        { destruct sb; cbn; [apply (filter_imp (fun q => 0 < u0 + q)); [intros; lra|apply pos_near; auto]| |];
+            apply filter_forall; intros; lra. }
+        assert (Lv : locally 0 (fun q => 0 < v0 + sR sb * q)).
+        { destruct sb; cbn; [| apply (filter_imp (fun q => 0 < v0 + q)); [intros; lra|apply pos_near; auto]|];
+            apply filter_forall; intros; lra. }
+        generalize (filter_and _ _ Lu Lv). apply filter_imp. intros q [Qu Qv]. cbn [sL sR].
+        apply (is_derive_ext (fun p => G ((u0 + sL sb * q) + p) (v0 + sR sb * q))).
+        * intros t. f_equal; ring.
+        * apply (dR_shift (fun t => G t (v0 + sR sb * q))). apply HA; auto.
+      + destruct sb; cbn.
+        * apply (is_derive_ext (fun q => G1 (u0 + q) v0)); [intros; f_equal; ring|]. apply (dR_shift (fun t => G1 t v0)); auto.
+        * apply (is_derive_ext (fun q => G1 u0 (v0 + q))); [intros; f_equal; ring|]. apply (dR_shift (fun t => G1 u0 t)); auto.
+        * apply (is_derive_ext (fun q => G1 u0 v0)); [intros; f_equal; ring|]. apply dR_const.
+    - exists (fun q => G2 (u0 + sL sb * q) (v0 + sR sb * q)). split.
+      + assert (Lu : locally 0 (fun q => 0 < u0 + sL sb * q)).
+        { destruct sb; cbn; [apply (filter_imp (fun q => 0 < u0 + q)); [intros; lra|apply pos_near; auto]| |];
+            apply filter_forall; intros; lra. }
+        assert (Lv : locally 0 (fun q => 0 < v0 + sR sb * q)).
+        { destruct sb; cbn; [| apply (filter_imp (fun q => 0 < v0 + q)); [intros; lra|apply pos_near; auto]|];
+            apply filter_forall; intros; lra. }
+        generalize (filter_and _ _ Lu Lv). apply filter_imp. intros q [Qu Qv]. cbn [sL sR].
+        apply (is_derive_ext (fun p => G (u0 + sL sb * q) ((v0 + sR sb * q) + p))).
+        * intros t. f_equal; ring.
+        * apply (dR_shift (fun t => G (u0 + sL sb * q) t)). apply HB; auto.
+      + destruct sb; cbn.
+        * apply (is_derive_ext (fun q => G2 (u0 + q) v0)); [intros; f_equal; ring|]. apply (dR_shift (fun t => G2 t v0)); auto.
+        * apply (is_derive_ext (fun q => G2 u0 (v0 + q))); [intros; f_equal; ring|]. apply (dR_shift (fun t => G2 u0 t)); auto.
+        * apply (is_derive_ext (fun q => G2 u0 v0)); [intros; f_equal; ring|]. apply dR_const.
+    - exists (fun _ => 0). split.
+      + apply filter_forall. intros q. cbn.
+        apply (is_derive_ext (fun p => G (u0 + sL sb * q) (v0 + sR sb * q))); [intros; f_equal; ring|]. apply dR_const.
+      + destruct sb; cbn; apply dR_const.
+  Qed.
+End Hess2.
+
+Definition famA (cu cv u v : R) : R := cu * u + cv * v.
+Definition famB (al be u v : R) : R := exp (al * ln u + be * ln v).
+
+Lemma famA_d1 cu cv u v : is_derive (fun t => famA cu cv t v) u cu.
+Proof. unfold famA. auto_derive; auto. ring. Qed.
+Lemma famA_d2 cu cv u v : is_derive (fun t => famA cu cv u t) v cv.
+Proof. unfold famA. auto_derive; auto. ring. Qed.
+
+Lemma famB_d1 al be u v : 0 < u -> 0 < v -> is_derive (fun t => famB al be t v) u (famB al be u v * al / u).
+Proof. intros Pu Pv. unfold famB. auto_derive; [auto|]. field. lra. Qed.
+Lemma famB_d2 al be u v : 0 < u -> 0 < v -> is_derive (fun t => famB al be u t) v (famB al be u v * be / v).
+Proof. intros Pu Pv. unfold famB. auto_derive; [auto|]. field. lra. Qed.
+Lemma famB_d11 al be u v : 0 < u -> 0 < v ->
+  is_derive (fun t => famB al be t v * al / t) u (famB al be u v * (al * al - al) / (u * u)).
+Proof. intros Pu Pv. unfold famB. auto_derive; [repeat split; auto; lra|]. field. lra. Qed.
+Lemma famB_d12 al be u v : 0 < u -> 0 < v ->
+  is_derive (fun t => famB al be u t * al / u) v (famB al be u v * (al * be) / (u * v)).
+Proof. intros Pu Pv. unfold famB. auto_derive; [repeat split; auto; lra|]. field. lra. Qed.
+Lemma famB_d21 al be u v : 0 < u -> 0 < v ->
+  is_derive (fun t => famB al be t v * be / v) u (famB al be u v * (al * be) / (u * v)).
+Proof. intros Pu Pv. unfold famB. auto_derive; [repeat split; auto; lra|]. field. lra. Qed.
+Lemma famB_d22 al be u v : 0 < u -> 0 < v ->
+  is_derive (fun t => famB al be u t * be / t) v (famB al be u v * (be * be - be) / (v * v)).
+Proof. intros Pu Pv. unfold famB. auto_derive; [repeat split; auto; lra|]. field. lra. Qed.
+
+(* ====================================================================================== *)
+(* Part G: the dual / dual2 value of each closed form on two freshly tagged nodes *)
+Local Open Scope R_scope.
+
+Section Ops2.
+  Variables a b : name.
+  Hypothesis Hab : name_eqb a b = false.
+  Hypothesis Hba : name_eqb b a = false.
+
+  Ltac nm := repeat (progress (cbn; unfold mem, lookup_or_zero, lookup2_or_zero, to_union_vars, to_new_vars, to_union_vars2, to_new_vars2, union_vars; cbn;
+                               rewrite ?Hab, ?Hba, ?name_eqb_refl)).
+
+  Lemma dsub_ba r2 d2 r1 d1 :
+    dsub false (mkDual r2 [b] [d2]) (mkDual r1 [a] [d1]) = mkDual (r2 - r1) [b; a] [d2 - 0; 0 - d1].
+  Proof. unfold dsub, align, vars_cmp. nm. reflexivity. Qed.
+  Lemma dadd_a_ba r1 d1 r p q :
+    dadd false (mkDual r1 [a] [d1]) (mkDual r [b; a] [p; q]) = mkDual (r1 + r) [b; a] [0 + p; d1 + q].
+  Proof. unfold dadd, align, vars_cmp. nm. reflexivity. Qed.
+
+  Lemma d2sub_ba r2 d2 h2 r1 d1 h1 :
+    d2sub false (mkDual2 r2 [b] [d2] [[h2]]) (mkDual2 r1 [a] [d1] [[h1]]) =
+    mkDual2 (r2 - r1) [b; a] [d2 - 0; 0 - d1] [[h2 - 0; 0 - 0]; [0 - 0; 0 - h1]].
+  Proof. unfold d2sub, align2, vars_cmp. nm. reflexivity. Qed.
+  Lemma d2add_a_ba r1 d1 h1 r p q h11 h12 h21 h22 :
+    d2add false (mkDual2 r1 [a] [d1] [[h1]]) (mkDual2 r [b; a] [p; q] [[h11; h12]; [h21; h22]]) =
+    mkDual2 (r1 + r) [b; a] [0 + p; d1 + q] [[0 + h11; 0 + h12]; [0 + h21; h1 + h22]].
+  Proof. unfold d2add, align2, vars_cmp. nm. reflexivity. Qed.
+
+  Local Opaque dsub dadd d2sub d2add.
+  Notation Dn y t := (mkDual y [t] [1]).
+  Notation D2n y t := (mkDual2 y [t] [1] [[0]]).
+
+  (* linear_interp on two single-variable duals *)
+  Lemma lin_d X1 r1 d1 X2 r2 d2 X :
+    linear_interp iops_d X1 (mkDual r1 [a] [d1]) X2 (mkDual r2 [b] [d2]) X =
+    mkDual (r1 + (r2 - r1) * ((X - X1) / (X2 - X1))) [b; a]
+      [0 + (X - X1) / (X2 - X1) * (d2 - 0); d1 + (X - X1) / (X2 - X1) * (0 - d1)].
+  Proof. unfold linear_interp. cbn [io_add io_sub io_mulf iops_d]. rewrite dsub_ba. unfold dmul_f. cbn. rewrite dadd_a_ba. reflexivity. Qed.
+  Lemma lin_d2 X1 r1 d1 h1 X2 r2 d2 h2 X :
+    linear_interp iops_d2 X1 (mkDual2 r1 [a] [d1] [[h1]]) X2 (mkDual2 r2 [b] [d2] [[h2]]) X =
+    let w := (X - X1) / (X2 - X1) in
+    mkDual2 (r1 + (r2 - r1) * w) [b; a]
+      [0 + w * (d2 - 0); d1 + w * (0 - d1)]
+      [[0 + w * (h2 - 0); 0 + w * (0 - 0)]; [0 + w * (0 - 0); h1 + w * (0 - h1)]].
+  Proof. unfold linear_interp. cbn [io_add io_sub io_mulf iops_d2]. rewrite d2sub_ba. unfold d2mul_f. cbn. rewrite d2add_a_ba. reflexivity. Qed.
+
+  (* what the tests below evaluate *)
+  Definition lk1 (d : dual2 R) (t : name) : R := lookup_or_zero (vs2 d) (du2 d) t.
+  Definition lk2 (d : dual2 R) (t u : name) : R := lookup2_or_zero (vs2 d) (dd2 d) t u.
+
+
+  Definition coefs (r : rule) (x0 x1 x2 x : Z) : R * R :=
+    let w := (IZR x - IZR x1) / (IZR x2 - IZR x1) in
+    match r with
+    | Linear | LogLinear => (1 - w, w)
+    | LinearZeroRate =>
+        let t := IZR x - IZR x0 in let t1 := IZR x1 - IZR x0 in let t2 := IZR x2 - IZR x0 in
+        let W := (t - t1) / (t2 - t1) in
+        if (x1 =? x0)%Z then (0, t / t2) else (t * (1 - W) / t1, t * W / t2)
+    | FlatForward => if (x >=? x2)%Z then (0, 1) else (1, 0)
+    | FlatBackward => if (x <=? x1)%Z then (1, 0) else (0, 1)
+    | Null => (0, 0)
+    end.
+  Definition is_exp (r : rule) : bool := match r with LogLinear | LinearZeroRate => true | _ => false end.
+
+  Definition by_names {A} (t : name) (vb va v0 : A) : A := if name_eqb t b then vb else if name_eqb t a then va else v0.
+
+  Ltac lk_cases t :=
+    unfold by_names; destruct (name_eqb t b) eqn:?; destruct (name_eqb t a) eqn:?; cbn.
+  Ltac lk_solve :=
+    unfold lk1, lk2, lookup_or_zero, lookup2_or_zero, by_names; cbn [vs2 du2 dd2 vs du index_of];
+    repeat match goal with |- context [name_eqb ?t b] => destruct (name_eqb t b) eqn:? end;
+    repeat match goal with |- context [name_eqb ?t a] => destruct (name_eqb t a) eqn:? end;
+    try (exfalso; match goal with H1 : name_eqb ?t b = true, H2 : name_eqb ?t a = true |- _ =>
+           apply name_eqb_eq in H1; apply name_eqb_eq in H2; pose proof Hab as C; rewrite <- H1, <- H2, name_eqb_refl in C;
+           discriminate end);
+    cbn; try lra; try (field; lra).
+
+  Lemma mulf_log_single2 y t c :
+    d2mul_f (d2log (D2n y t)) c =
+    mkDual2 (ln y * c) [t] [c * (1 / y * 1)] [[c * (1 / y * 0 - 1 * 1 * (1 / 2) * (1 / y * (1 / y)))]].
+  Proof. reflexivity. Qed.
+  Lemma mulf_pair2 r p q h11 h12 h21 h22 c :
+    d2mul_f (mkDual2 r [b; a] [p; q] [[h11; h12]; [h21; h22]]) c =
+    mkDual2 (r * c) [b; a] [c * p; c * q] [[c * h11; c * h12]; [c * h21; c * h22]].
+  Proof. reflexivity. Qed.
+  Lemma mulf_log_single1 y t c :
+    dmul_f (dlog (Dn y t)) c = mkDual (ln y * c) [t] [c * (1 / y * 1)].
+  Proof. reflexivity. Qed.
+  Lemma mulf_pair1 r p q c :
+    dmul_f (mkDual r [b; a] [p; q]) c = mkDual (r * c) [b; a] [c * p; c * q].
+  Proof. reflexivity. Qed.
+
+  Lemma form_d2_spec r x0 P0 x1 y1 x2 y2 x : r <> Null -> (x0 <= x1)%Z -> (x1 < x2)%Z -> 0 < y1 -> 0 < y2 ->
+    let d := form iops_d2 r (x0, P0) (x1, D2n y1 a) (x2, D2n y2 b) x in
+    let c1 := fst (coefs r x0 x1 x2 x) in let c2 := snd (coefs r x0 x1 x2 x) in
+    let Gv := re2 d in
+    let g1 := if is_exp r then Gv * c1 / y1 else c1 in
+    let g2 := if is_exp r then Gv * c2 / y2 else c2 in
+    let h11 := if is_exp r then Gv * (c1 * c1 - c1) / (y1 * y1) else 0 in
+    let h12 := if is_exp r then Gv * (c1 * c2) / (y1 * y2) else 0 in
+    let h22 := if is_exp r then Gv * (c2 * c2 - c2) / (y2 * y2) else 0 in
+    (forall t, lk1 d t = by_names t g2 g1 0) /\
+    (forall t u, 2 * lk2 d t u = by_names t (by_names u h22 h12 0) (by_names u h12 h11 0) 0).
+  Proof.
+    intros NN L01 L12 P1 P2.
+    assert (Hx12 : IZR x2 - IZR x1 <> 0) by (apply IZR_lt in L12; lra).
+    destruct r; try congruence; cbn zeta; cbn [is_exp].
+    - (* LogLinear *)
+      cbn [form fst snd coefs]. unfold log_linear_interp. cbn [io_log io_exp iops_d2].
+      unfold d2log. cbn -[linear_interp]. rewrite lin_d2. cbn zeta. unfold d2exp. cbn.
+      split; [intros t|intros t u]; lk_solve.
+    - (* Linear *)
+      cbn [form fst snd coefs]. rewrite lin_d2. cbn.
+      split; [intros t|intros t u]; lk_solve.
+    - (* LinearZeroRate *)
+      cbn [form fst snd coefs]. unfold linear_zero_interp. cbn [io_log io_exp io_mulf io_add io_sub iops_d2].
+      unfold nm1. change (@neqb R NumR) with Reqb. change (@nsub R NumR) with Rminus. change (@n0 R NumR) with 0.
+      change (@n1 R NumR) with 1. change (@nneg R NumR) with Ropp. change (@ndiv R NumR) with Rdiv. change (@nofZ R NumR) with IZR.
+      assert (EQ : Reqb (IZR x1 - IZR x0) 0 = (x1 =? x0)%Z).
+      { unfold Reqb. destruct (Req_EM_T (IZR x1 - IZR x0) 0) as [E|E]; destruct (Z.eqb_spec x1 x0) as [E'|E']; auto.
+        - exfalso. apply E'. apply eq_IZR. lra.
+        - exfalso. apply E. subst. lra. }
+      rewrite EQ. clear EQ. destruct (Z.eqb_spec x1 x0) as [E'|E'].
+      + assert (Ht2 : IZR x2 - IZR x0 <> 0) by (subst; apply IZR_lt in L12; lra).
+        unfold d2log, d2mul_f, d2exp. cbn.
+        split; [intros t|intros t u]; lk_solve.
+      + assert (Ht1 : IZR x1 - IZR x0 <> 0) by (intros C; apply E'; apply eq_IZR; lra).
+        assert (Ht2 : IZR x2 - IZR x0 <> 0) by (apply IZR_le in L01; apply IZR_lt in L12; lra).
+        assert (Ht21 : IZR x2 - IZR x0 - (IZR x1 - IZR x0) <> 0) by lra.
+        rewrite !mulf_log_single2. rewrite d2sub_ba, mulf_pair2, d2add_a_ba, mulf_pair2.
+        unfold d2exp. cbn.
+        split; [intros t|intros t u]; lk_solve.
+    - (* FlatForward *)
+      cbn [form fst snd coefs]. destruct (x >=? x2)%Z; cbn; split; [intros t|intros t u|intros t|intros t u]; lk_solve.
+    - (* FlatBackward *)
+      cbn [form fst snd coefs]. destruct (x <=? x1)%Z; cbn; split; [intros t|intros t u|intros t|intros t u]; lk_solve.
+  Qed.
+
+  Definition lk0 (d : dual R) (t : name) : R := lookup_or_zero (vs d) (du d) t.
+  Lemma form_d1_spec r x0 P0 x1 y1 x2 y2 x : r <> Null -> (x0 <= x1)%Z -> (x1 < x2)%Z -> 0 < y1 -> 0 < y2 ->
+    let d := form iops_d r (x0, P0) (x1, Dn y1 a) (x2, Dn y2 b) x in
+    let c1 := fst (coefs r x0 x1 x2 x) in let c2 := snd (coefs r x0 x1 x2 x) in
+    let Gv := re d in
+    let g1 := if is_exp r then Gv * c1 / y1 else c1 in
+    let g2 := if is_exp r then Gv * c2 / y2 else c2 in
+    forall t, lk0 d t = by_names t g2 g1 0.
+  Proof.
+    intros NN L01 L12 P1 P2.
+    assert (Hx12 : IZR x2 - IZR x1 <> 0) by (apply IZR_lt in L12; lra).
+    destruct r; try congruence; cbn zeta; cbn [is_exp].
+    - cbn [form fst snd coefs]. unfold log_linear_interp. cbn [io_log io_exp iops_d].
+      unfold dlog. cbn -[linear_interp]. rewrite lin_d. unfold dexp. cbn.
+      intros t; unfold lk0; lk_solve.
+    - cbn [form fst snd coefs]. rewrite lin_d. cbn. intros t; unfold lk0; lk_solve.
+    - cbn [form fst snd coefs]. unfold linear_zero_interp. cbn [io_log io_exp io_mulf io_add io_sub iops_d].
+      unfold nm1. change (@neqb R NumR) with Reqb. change (@nsub R NumR) with Rminus. change (@n0 R NumR) with 0.
+      change (@n1 R NumR) with 1. change (@nneg R NumR) with Ropp. change (@ndiv R NumR) with Rdiv. change (@nofZ R NumR) with IZR.
+      assert (EQ : Reqb (IZR x1 - IZR x0) 0 = (x1 =? x0)%Z).
+      { unfold Reqb. destruct (Req_EM_T (IZR x1 - IZR x0) 0) as [E|E]; destruct (Z.eqb_spec x1 x0) as [E'|E']; auto.
+        - exfalso. apply E'. apply eq_IZR. lra.
+        - exfalso. apply E. subst. lra. }
+      rewrite EQ. clear EQ. destruct (Z.eqb_spec x1 x0) as [E'|E'].
+      + assert (Ht2 : IZR x2 - IZR x0 <> 0) by (subst; apply IZR_lt in L12; lra).
+        unfold dlog, dmul_f, dexp. cbn. intros t; unfold lk0; lk_solve.
+      + assert (Ht1 : IZR x1 - IZR x0 <> 0) by (intros C; apply E'; apply eq_IZR; lra).
+        assert (Ht2 : IZR x2 - IZR x0 <> 0) by (apply IZR_le in L01; apply IZR_lt in L12; lra).
+        assert (Ht21 : IZR x2 - IZR x0 - (IZR x1 - IZR x0) <> 0) by lra.
+        rewrite !mulf_log_single1. rewrite dsub_ba, mulf_pair1, dadd_a_ba, mulf_pair1.
+        unfold dexp. cbn. intros t; unfold lk0; lk_solve.
+    - cbn [form fst snd coefs]. destruct (x >=? x2)%Z; cbn; intros t; unfold lk0; lk_solve.
+    - cbn [form fst snd coefs]. destruct (x <=? x1)%Z; cbn; intros t; unfold lk0; lk_solve.
+  Qed.
+End Ops2.
+
+(* ====================================================================================== *)
+(* Part H: tags are distinct; gradient read-back; closed forms as two families; perturbed look-ups *)
+Local Open Scope nat_scope.
+
+(* ---- variable tags are pairwise distinct (usize::to_string is injective) *)
+Lemma dec_digits_len fuel : forall n acc, length acc <= length (dec_digits fuel n acc).
+Proof.
+  induction fuel as [|k IH]; intros n acc; cbn; auto.
+  destruct (n / 10 =? 0)%Z; cbn; [lia|]. specialize (IH (n / 10)%Z ((48 + n mod 10)%Z :: acc)). cbn in IH. lia.
+Qed.
+Lemma dec_digits_len_S k n acc : S (length acc) <= length (dec_digits (S k) n acc).
+Proof.
+  cbn. destruct (n / 10 =? 0)%Z; cbn; [lia|].
+  assert (A := dec_digits_len k (n / 10)%Z ((48 + n mod 10)%Z :: acc)). cbn in A. lia.
+Qed.
+Lemma dec_digits_inj fuel : forall n m acc acc',
+  (0 <= n < 10 ^ Z.of_nat fuel)%Z -> (0 <= m < 10 ^ Z.of_nat fuel)%Z -> length acc = length acc' ->
+  dec_digits fuel n acc = dec_digits fuel m acc' -> n = m /\ acc = acc'.
+Proof.
+  induction fuel as [|k IH]; intros n m acc acc' Hn Hm L E.
+  - cbn in *. split; [lia|auto].
+  - rewrite Nat2Z.inj_succ, Z.pow_succ_r in Hn, Hm by lia.
+    assert (Qn : (0 <= n / 10 < 10 ^ Z.of_nat k)%Z) by (split; [apply Z.div_pos; lia|apply Z.div_lt_upper_bound; lia]).
+    assert (Qm : (0 <= m / 10 < 10 ^ Z.of_nat k)%Z) by (split; [apply Z.div_pos; lia|apply Z.div_lt_upper_bound; lia]).
+    assert (Dn := Z.div_mod n 10 ltac:(lia)). assert (Dm := Z.div_mod m 10 ltac:(lia)).
+    assert (Mn := Z.mod_pos_bound n 10 ltac:(lia)). assert (Mm := Z.mod_pos_bound m 10 ltac:(lia)).
+    cbn [dec_digits] in E.
+    destruct (Z.eqb_spec (n / 10) 0) as [En|En]; destruct (Z.eqb_spec (m / 10) 0) as [Em|Em].
+    + pose proof (f_equal (@hd Z 0%Z) E) as E1; cbn [hd] in E1. pose proof (f_equal (@tl Z) E) as E2; cbn [tl] in E2. split; [lia|auto].
+    + exfalso. destruct k as [|k'].
+      * cbn in Qm. lia.
+      * assert (A := dec_digits_len_S k' (m / 10)%Z ((48 + m mod 10)%Z :: acc')).
+        rewrite <- E in A. cbn in A. lia.
+    + exfalso. destruct k as [|k'].
+      * cbn in Qn. lia.
+      * assert (A := dec_digits_len_S k' (n / 10)%Z ((48 + n mod 10)%Z :: acc)).
+        rewrite E in A. cbn in A. lia.
+    + assert (LL : length ((48 + n mod 10)%Z :: acc) = length ((48 + m mod 10)%Z :: acc')) by (cbn [length]; lia).
+      destruct (IH _ _ _ _ Qn Qm LL E) as [A B]. pose proof (f_equal (@hd Z 0%Z) B) as B1; cbn [hd] in B1. pose proof (f_equal (@tl Z) B) as B2; cbn [tl] in B2. split; [lia|auto].
+Qed.
+Definition usize_max : Z := 18446744073709551616%Z.
+Lemma var_tag_inj id i j : (Z.of_nat i < usize_max)%Z -> (Z.of_nat j < usize_max)%Z ->
+  var_tag id i = var_tag id j -> i = j.
+Proof.
+  unfold var_tag, dec_of_Z, usize_max. intros Hi Hj E. apply app_inv_head in E.
+  assert (P : (18446744073709551616 < 10 ^ Z.of_nat 40)%Z) by (vm_compute; reflexivity).
+  destruct (dec_digits_inj 40 (Z.of_nat i) (Z.of_nat j) [] []) as [A _]; auto; lia.
+Qed.
+Lemma var_tag_neqb id i j : (Z.of_nat i < usize_max)%Z -> (Z.of_nat j < usize_max)%Z -> i <> j ->
+  name_eqb (var_tag id i) (var_tag id j) = false.
+Proof. intros Hi Hj N. apply name_eqb_neq. intros E. apply N. eapply var_tag_inj; eauto. Qed.
+Lemma NoDup_map_inj_in {A B} (f : A -> B) l : NoDup l ->
+  (forall x y, In x l -> In y l -> f x = f y -> x = y) -> NoDup (map f l).
+Proof.
+  induction 1 as [|a l NI ND IH]; intros Inj; cbn; constructor.
+  - intros I. apply in_map_iff in I. destruct I as (y & E & Hy).
+    assert (y = a) by (apply Inj; [right; auto|left; auto|auto]). subst. contradiction.
+  - apply IH. intros x y Hx Hy. apply Inj; right; auto.
+Qed.
+Lemma tags_NoDup id n : (Z.of_nat n <= usize_max)%Z -> NoDup (get_variable_tags id n).
+Proof.
+  intros L. unfold get_variable_tags. apply NoDup_map_inj_in.
+  - apply seq_NoDup.
+  - intros i j Hi Hj E. apply in_seq in Hi. apply in_seq in Hj. eapply var_tag_inj; eauto; lia.
+Qed.
+
+(* ---- gradient1 / gradient2 read back the coefficient of each requested name *)
+Local Open Scope R_scope.
+
+Lemma nth_map_in {A B} (f : A -> B) l j dA dB : (j < length l)%nat -> nth j (map f l) dB = f (nth j l dA).
+Proof. intros L. rewrite (nth_indep _ dB (f dA)) by (rewrite map_length; auto). apply map_nth. Qed.
+
+Lemma vars_cmp_false_cases xs ys :
+  (vars_cmp false xs ys = ValEq /\ xs = ys) \/
+  (vars_cmp false xs ys <> ValEq /\ vars_cmp false xs ys <> ArcEq).
+Proof.
+  unfold vars_cmp. cbn.
+  destruct (Nat.eqb (length xs) (length ys) && names_zip_all xs ys) eqn:E.
+  - left. split; auto. apply andb_true_iff in E. destruct E as [E1 E2]. apply Nat.eqb_eq in E1.
+    apply names_zip_all_eq; auto.
+  - right. repeat match goal with |- context [if ?c then _ else _] => destruct c end; split; discriminate.
+Qed.
+
+Lemma gradient1_gen_nth vars (d : list R) ws j : NoDup ws -> (j < length ws)%nat ->
+  nth j (gradient1_gen vars d ws) 0 = lookup_or_zero vars d (nth j ws []).
+Proof.
+  intros ND L. unfold gradient1_gen. rewrite (dedup_id ws ND).
+  destruct (vars_cmp_false_cases vars ws) as [[E V]|[N1 N2]].
+  - rewrite E. subst vars. unfold lookup_or_zero. unfold name in *. rewrite (index_of_nth ws ND j L). reflexivity.
+  - destruct (vars_cmp false vars ws); try congruence; apply (nth_map_in _ ws j [] 0 L).
+Qed.
+
+Lemma nth_mmap0 (f : R -> R) (m : list (list R)) j k : f 0 = 0 ->
+  nth k (nth j (map (map f) m) []) 0 = f (nth k (nth j m []) 0).
+Proof.
+  intros F0. destruct (Nat.lt_ge_cases j (length m)) as [L|L].
+  - rewrite (nth_map_in (map f) m j [] [] L).
+    destruct (Nat.lt_ge_cases k (length (nth j m []))) as [L'|L'].
+    + apply (nth_map_in f _ k 0 0 L').
+    + rewrite !nth_overflow; auto. rewrite map_length. auto.
+  - rewrite (nth_overflow (map (map f) m)) by (rewrite map_length; auto). rewrite (nth_overflow m) by auto.
+    destruct k; cbn; auto.
+Qed.
+
+Lemma gradient2_nth (d : dual2 R) ws j k : NoDup ws -> (j < length ws)%nat -> (k < length ws)%nat ->
+  nth k (nth j (gradient2 d ws) []) 0 = 2 * lookup2_or_zero (vs2 d) (dd2 d) (nth j ws []) (nth k ws []).
+Proof.
+  intros ND Lj Lk. unfold gradient2. rewrite (dedup_id ws ND).
+  assert (F0 : (fun e : R => nmul n2 e) 0 = 0) by (cbn; unfold n2; cbn; ring).
+  assert (T : forall e : R, nmul n2 e = 2 * e) by (intros; reflexivity).
+  destruct (vars_cmp_false_cases (vs2 d) ws) as [[E V]|[N1 N2]].
+  - rewrite E. unfold mmap. rewrite nth_mmap0 by exact F0. rewrite T. f_equal.
+    unfold lookup2_or_zero. rewrite V. unfold name in *. rewrite (index_of_nth ws ND j Lj), (index_of_nth ws ND k Lk). reflexivity.
+  - assert (G : nth k (nth j (mmap (fun e : R => nmul n2 e)
+                    (map (fun u => map (fun v => lookup2_or_zero (vs2 d) (dd2 d) u v) ws) ws)) []) 0 =
+                2 * lookup2_or_zero (vs2 d) (dd2 d) (nth j ws []) (nth k ws [])).
+    { unfold mmap. rewrite nth_mmap0 by exact F0. rewrite T. f_equal.
+      rewrite (nth_map_in _ ws j [] [] Lj). apply (nth_map_in _ ws k [] 0 Lk). }
+    destruct (vars_cmp false (vs2 d) ws); try congruence; exact G.
+Qed.
+
+(* ---- the closed forms as members of two families *)
+Lemma closed_fam r x0 x1 x2 x u v : r <> Null ->
+  closed_form r x0 x1 u x2 v x =
+  if is_exp r then famB (fst (coefs r x0 x1 x2 x)) (snd (coefs r x0 x1 x2 x)) u v
+  else famA (fst (coefs r x0 x1 x2 x)) (snd (coefs r x0 x1 x2 x)) u v.
+Proof.
+  intros NN. destruct r; try congruence; cbn -[Z.eqb Z.geb Z.leb]; unfold famA, famB.
+  - f_equal. ring.
+  - ring.
+  - destruct (x1 =? x0)%Z; cbn [fst snd]; f_equal; unfold Rdiv; ring.
+  - destruct (x >=? x2)%Z; cbn [fst snd]; ring.
+  - destruct (x <=? x1)%Z; cbn [fst snd]; ring.
+Qed.
+
+Section ClosedCalc.
+  Variables (r : rule) (x0 x1 x2 x : Z).
+  Hypothesis NN : r <> Null.
+  Let c1 := fst (coefs r x0 x1 x2 x).
+  Let c2 := snd (coefs r x0 x1 x2 x).
+  Definition Gf (u v : R) : R := closed_form r x0 x1 u x2 v x.
+  Definition G1f (u v : R) : R := if is_exp r then Gf u v * c1 / u else c1.
+  Definition G2f (u v : R) : R := if is_exp r then Gf u v * c2 / v else c2.
+  Definition G11f (u v : R) : R := if is_exp r then Gf u v * (c1 * c1 - c1) / (u * u) else 0.
+  Definition G12f (u v : R) : R := if is_exp r then Gf u v * (c1 * c2) / (u * v) else 0.
+  Definition G22f (u v : R) : R := if is_exp r then Gf u v * (c2 * c2 - c2) / (v * v) else 0.
+
+  Lemma Gf_fam u v : Gf u v = if is_exp r then famB c1 c2 u v else famA c1 c2 u v.
+  Proof. unfold Gf, c1, c2. apply closed_fam; auto. Qed.
+
+  Lemma closed_HA u v : 0 < u -> 0 < v -> is_derive (fun t => Gf t v) u (G1f u v).
+  Proof.
+    intros Pu Pv. unfold G1f. rewrite Gf_fam. destruct (is_exp r) eqn:E.
+    - apply (is_derive_ext (fun t => famB c1 c2 t v)); [intros t; rewrite Gf_fam, E; reflexivity|]. apply famB_d1; auto.
+    - apply (is_derive_ext (fun t => famA c1 c2 t v)); [intros t; rewrite Gf_fam, E; reflexivity|]. apply famA_d1.
+  Qed.
+  Lemma closed_HB u v : 0 < u -> 0 < v -> is_derive (fun t => Gf u t) v (G2f u v).
+  Proof.
+    intros Pu Pv. unfold G2f. rewrite Gf_fam. destruct (is_exp r) eqn:E.
+    - apply (is_derive_ext (fun t => famB c1 c2 u t)); [intros t; rewrite Gf_fam, E; reflexivity|]. apply famB_d2; auto.
+    - apply (is_derive_ext (fun t => famA c1 c2 u t)); [intros t; rewrite Gf_fam, E; reflexivity|]. apply famA_d2.
+  Qed.
+  Lemma closed_H11 u v : 0 < u -> 0 < v -> is_derive (fun t => G1f t v) u (G11f u v).
+  Proof.
+    intros Pu Pv. unfold G1f, G11f. rewrite Gf_fam. destruct (is_exp r) eqn:E.
+    - apply (is_derive_ext (fun t => famB c1 c2 t v * c1 / t)); [intros t; rewrite Gf_fam, E; reflexivity|]. apply famB_d11; auto.
+    - apply dR_const.
+  Qed.
+  Lemma closed_H12 u v : 0 < u -> 0 < v -> is_derive (fun t => G1f u t) v (G12f u v).
+  Proof.
+    intros Pu Pv. unfold G1f, G12f. rewrite Gf_fam. destruct (is_exp r) eqn:E.
+    - apply (is_derive_ext (fun t => famB c1 c2 u t * c1 / u)); [intros t; rewrite Gf_fam, E; reflexivity|]. apply famB_d12; auto.
+    - apply dR_const.
+  Qed.
+  Lemma closed_H21 u v : 0 < u -> 0 < v -> is_derive (fun t => G2f t v) u (G12f u v).
+  Proof.
+    intros Pu Pv. unfold G2f, G12f. rewrite Gf_fam. destruct (is_exp r) eqn:E.
+    - apply (is_derive_ext (fun t => famB c1 c2 t v * c2 / v)); [intros t; rewrite Gf_fam, E; reflexivity|]. apply famB_d21; auto.
+    - apply dR_const.
+  Qed.
+  Lemma closed_H22 u v : 0 < u -> 0 < v -> is_derive (fun t => G2f u t) v (G22f u v).
+  Proof.
+    intros Pu Pv. unfold G2f, G22f. rewrite Gf_fam. destruct (is_exp r) eqn:E.
+    - apply (is_derive_ext (fun t => famB c1 c2 u t * c2 / t)); [intros t; rewrite Gf_fam, E; reflexivity|]. apply famB_d22; auto.
+    - apply dR_const.
+  Qed.
+End ClosedCalc.
+
+(* ---- the look-up as a real function of the node values *)
+Definition lookupR (r : rule) (m : list (Z * R)) (x : Z) : R :=
+  match interp_at iopsR r m x with Ok v => v | _ => 0 end.
+(* add a to the value of node j *)
+Definition add_val (m : list (Z * R)) (j : nat) (a : R) : list (Z * R) :=
+  mapi (fun i kv => if Nat.eqb i j then (fst kv, snd kv + a) else kv) m.
+
+Lemma add_val_keys m j a : keys (add_val m j a) = keys m.
+Proof.
+  unfold keys, add_val, mapi. rewrite mapi_from_map.
+  rewrite (mapi_from_ext _ (fun _ kv => fst kv)); [apply mapi_from_const|].
+  intros i kv _. destruct (Nat.eqb (0 + i) j); reflexivity.
+Qed.
+Lemma add_val_length m j a : length (add_val m j a) = length m.
+Proof. unfold add_val, mapi. apply mapi_from_length. Qed.
+Lemma add_val_nth m j a i kx ky : nth_error m i = Some (kx, ky) ->
+  nth_error (add_val m j a) i = Some (kx, if Nat.eqb i j then ky + a else ky).
+Proof.
+  intros E. unfold add_val, mapi. rewrite mapi_from_nth_error, E. cbn. destruct (Nat.eqb i j); reflexivity.
+Qed.
+
+Lemma lookupR_closed r m x x0 y0 x1 y1 x2 y2 : ksorted m -> (2 <= length m)%nat -> r <> Null ->
+  nth_error m 0 = Some (x0, y0) -> nth_error m (interval_of m x) = Some (x1, y1) ->
+  nth_error m (S (interval_of m x)) = Some (x2, y2) ->
+  lookupR r m x = closed_form r x0 x1 y1 x2 y2 x.
+Proof.
+  intros Hs L NN E0 E1 E2. unfold lookupR.
+  destruct (interp_at_form iopsR r m x Hs L NN) as (p0 & p1 & p2 & A0 & A1 & A2 & AV).
+  rewrite AV. assert (p0 = (x0, y0)) by congruence. assert (p1 = (x1, y1)) by congruence.
+  assert (p2 = (x2, y2)) by congruence. subst. apply form_closed; auto.
+Qed.
+
+Definition sel_of (i j : nat) : sel := if Nat.eqb j i then SL else if Nat.eqb j (S i) then SR else SN.
+
+(* the look-up on a curve with nodes j and k perturbed by p and q *)
+Lemma lookupR_perturbed r m x j k p q x0 y0 x1 y1 x2 y2 : ksorted m -> (2 <= length m)%nat -> r <> Null ->
+  nth_error m 0 = Some (x0, y0) -> nth_error m (interval_of m x) = Some (x1, y1) ->
+  nth_error m (S (interval_of m x)) = Some (x2, y2) ->
+  lookupR r (add_val (add_val m j p) k q) x =
+  Gf r x0 x1 x2 x (y1 + sL (sel_of (interval_of m x) j) * p + sL (sel_of (interval_of m x) k) * q)
+                  (y2 + sR (sel_of (interval_of m x) j) * p + sR (sel_of (interval_of m x) k) * q).
+Proof.
+  intros Hs L NN E0 E1 E2.
+  set (m' := add_val (add_val m j p) k q).
+  assert (K : keys m' = keys m) by (unfold m'; rewrite !add_val_keys; reflexivity).
+  assert (Ln : length m' = length m) by (unfold m'; rewrite !add_val_length; reflexivity).
+  assert (I : interval_of m' x = interval_of m x) by (unfold interval_of; rewrite K, Ln; reflexivity).
+  assert (Hs' : ksorted m') by (unfold ksorted; rewrite K; exact Hs).
+  set (i := interval_of m x) in *.
+  assert (N : forall t kx ky, nth_error m t = Some (kx, ky) ->
+            nth_error m' t = Some (kx, if Nat.eqb t k then (if Nat.eqb t j then ky + p else ky) + q
+                                       else if Nat.eqb t j then ky + p else ky)).
+  { intros t kx ky E. unfold m'. erewrite add_val_nth; [|eapply add_val_nth; exact E]. reflexivity. }
+  erewrite (lookupR_closed r m' x); [| exact Hs' | lia | exact NN | apply N; exact E0 | rewrite I; apply N; exact E1
+                                     | rewrite I; apply N; exact E2].
+  unfold Gf. unfold sel_of.
+  assert (Si : Nat.eqb (S i) i = false) by (apply Nat.eqb_neq; lia).
+  assert (iS : Nat.eqb i (S i) = false) by (apply Nat.eqb_neq; lia).
+  rewrite !(Nat.eqb_sym i), !(Nat.eqb_sym (S i)).
+  f_equal.
+  - destruct (Nat.eqb_spec k i); destruct (Nat.eqb_spec j i); subst; rewrite ?Si, ?iS; cbn;
+      repeat match goal with |- context [Nat.eqb ?a ?b] => destruct (Nat.eqb a b) end; cbn; ring.
+  - destruct (Nat.eqb_spec k (S i)); destruct (Nat.eqb_spec j (S i)); subst; rewrite ?Si, ?iS; cbn;
+      repeat match goal with |- context [Nat.eqb ?a ?b] => destruct (Nat.eqb a b) end; cbn; ring.
+Qed.
+
+(* ====================================================================================== *)
+(* Part I: C12_grad *)
+Local Open Scope R_scope.
+
+Lemma form_hom {U} (o : iops R U) (phi : U -> R) (Hh : hom o phi) r p0 p1 p2 x :
+  phi (form o r p0 p1 p2 x) =
+  form iopsR r (fst p0, phi (snd p0)) (fst p1, phi (snd p1)) (fst p2, phi (snd p2)) x.
+Proof.
+  destruct r; cbn [form fst snd].
+  - apply (hom_loglinear o phi Hh).
+  - apply (hom_linear o phi Hh).
+  - apply (hom_zero o phi Hh).
+  - destruct (x >=? fst p2)%Z; reflexivity.
+  - destruct (x <=? fst p1)%Z; reflexivity.
+  - reflexivity.
+Qed.
+
+Lemma tag_eqb id i j : (Z.of_nat i < usize_max)%Z -> (Z.of_nat j < usize_max)%Z ->
+  name_eqb (var_tag id i) (var_tag id j) = Nat.eqb i j.
+Proof.
+  intros Hi Hj. destruct (Nat.eqb_spec i j).
+  - subst. apply name_eqb_refl.
+  - apply var_tag_neqb; auto.
+Qed.
+
+Lemma by_names_sel {A} id i j (vb va v0 : A) : (Z.of_nat (S i) < usize_max)%Z -> (Z.of_nat j < usize_max)%Z ->
+  by_names (var_tag id i) (var_tag id (S i)) (var_tag id j) vb va v0 =
+  match sel_of i j with SL => va | SR => vb | SN => v0 end.
+Proof.
+  intros Hi Hj. unfold by_names, sel_of. rewrite !tag_eqb by lia.
+  destruct (Nat.eqb_spec j (S i)); destruct (Nat.eqb_spec j i); try reflexivity. lia.
+Qed.
+
+Lemma lookupR_perturbed1 r m x j p x0 y0 x1 y1 x2 y2 : ksorted m -> (2 <= length m)%nat -> r <> Null ->
+  nth_error m 0 = Some (x0, y0) -> nth_error m (interval_of m x) = Some (x1, y1) ->
+  nth_error m (S (interval_of m x)) = Some (x2, y2) ->
+  lookupR r (add_val m j p) x =
+  Gf r x0 x1 x2 x (y1 + sL (sel_of (interval_of m x) j) * p) (y2 + sR (sel_of (interval_of m x) j) * p).
+Proof.
+  intros Hs L NN E0 E1 E2.
+  set (m' := add_val m j p).
+  assert (K : keys m' = keys m) by (unfold m'; rewrite !add_val_keys; reflexivity).
+  assert (Ln : length m' = length m) by (unfold m'; rewrite !add_val_length; reflexivity).
+  assert (I : interval_of m' x = interval_of m x) by (unfold interval_of; rewrite K, Ln; reflexivity).
+  assert (Hs' : ksorted m') by (unfold ksorted; rewrite K; exact Hs).
+  set (i := interval_of m x) in *.
+  assert (N : forall t kx ky, nth_error m t = Some (kx, ky) ->
+            nth_error m' t = Some (kx, if Nat.eqb t j then ky + p else ky)).
+  { intros t kx ky E. unfold m'. apply add_val_nth; exact E. }
+  erewrite (lookupR_closed r m' x); [| exact Hs' | lia | exact NN | apply N; exact E0 | rewrite I; apply N; exact E1
+                                     | rewrite I; apply N; exact E2].
+  unfold Gf, sel_of.
+  assert (Si : Nat.eqb (S i) i = false) by (apply Nat.eqb_neq; lia).
+  rewrite !(Nat.eqb_sym i), !(Nat.eqb_sym (S i)).
+  f_equal.
+  - destruct (Nat.eqb_spec j i); subst; cbn; [ring|]. destruct (Nat.eqb j (S i)); cbn; ring.
+  - destruct (Nat.eqb_spec j (S i)); subst; rewrite ?Si; cbn; [ring|]. destruct (Nat.eqb j i); cbn; ring.
+Qed.
+
+Definition positive_nodes (m : list (Z * R)) : Prop := forall kv, In kv m -> 0 < snd kv.
+
+Lemma sorted_bracket (c : curveR) m x : sortedF c m ->
+  exists x0 y0 x1 y1 x2 y2, nth_error m 0 = Some (x0, y0) /\ nth_error m (interval_of m x) = Some (x1, y1) /\
+    nth_error m (S (interval_of m x)) = Some (x2, y2) /\ (x0 <= x1)%Z /\ (x1 < x2)%Z.
+Proof.
+  intros (En & Hs & L). assert (Hi := interval_of_lt m x L).
+  destruct (nth_error_some_lt m 0) as [[x0 y0] E0]; [lia|].
+  destruct (nth_error_some_lt m (interval_of m x)) as [[x1 y1] E1]; [lia|].
+  destruct (nth_error_some_lt m (S (interval_of m x))) as [[x2 y2] E2]; [lia|].
+  exists x0, y0, x1, y1, x2, y2. repeat split; auto.
+  - destruct (interval_of m x) as [|i'] eqn:EI.
+    + assert ((x1, y1) = (x0, y0)) by congruence. inversion H; lia.
+    + assert ((x0 < x1)%Z); [|lia]. apply (ksorted_nth_lt m 0 (S i') (x0, y0) (x1, y1)); auto. lia.
+  - apply (ksorted_nth_lt m (interval_of m x) (S (interval_of m x)) (x1, y1) (x2, y2)); auto.
+Qed.
+
+Section Tagged.
+  Variables (c : curveR) (m : list (Z * R)) (x : Z).
+  Hypothesis SF : sortedF c m.
+  Hypothesis NN : c_rule c <> Null.
+  Hypothesis Lu : (Z.of_nat (length m) <= usize_max)%Z.
+  Hypothesis Pos : positive_nodes m.
+  Let tags := get_variable_tags (c_id c) (length m).
+  Let r := c_rule c.
+  Let i := interval_of m x.
+
+  Lemma tags_facts : NoDup tags /\ length tags = length m /\
+    forall j, (j < length m)%nat -> nth j tags [] = var_tag (c_id c) j.
+  Proof.
+    split; [apply tags_NoDup; exact Lu|]. split.
+    - unfold tags, get_variable_tags. rewrite map_length, seq_length. reflexivity.
+    - intros j Hj. apply tags_nth; auto.
+  Qed.
+
+  Theorem grad2_exact :
+    exists d, interpolated_value (set_ad_order c OTwo) x = Ok (ND2 d) /\ re2 d = lookupR r m x /\
+      (forall j, (j < length m)%nat ->
+         is_derive (fun p => lookupR r (add_val m j p) x) 0 (nth j (gradient1_2 d tags) 0)) /\
+      (forall j k, (j < length m)%nat -> (k < length m)%nat ->
+         exists g1 : R -> R,
+           locally 0 (fun q => is_derive (fun p => lookupR r (add_val (add_val m j p) k q) x) 0 (g1 q)) /\
+           is_derive g1 0 (nth k (nth j (gradient2 d tags) []) 0)) /\
+      (forall j, (j < length m)%nat -> j <> i -> j <> S i ->
+         nth j (gradient1_2 d tags) 0 = 0 /\
+         forall k, (k < length m)%nat ->
+           nth k (nth j (gradient2 d tags) []) 0 = 0 /\ nth j (nth k (gradient2 d tags) []) 0 = 0).
+  Proof.
+    destruct (sorted_bracket c m x SF) as (x0 & y0 & x1 & y1 & x2 & y2 & E0 & E1 & E2 & L01 & L12).
+    assert (SF' := SF). destruct SF' as (En & Hs & L).
+    fold i in E1, E2.
+    assert (Hi : (S i < length m)%nat) by (apply interval_of_lt; auto).
+    assert (P1 : 0 < y1) by (apply (Pos (x1, y1)); eapply nth_error_In; eauto).
+    assert (P2 : 0 < y2) by (apply (Pos (x2, y2)); eapply nth_error_In; eauto).
+    set (id := c_id c) in *. set (a := var_tag id i). set (b := var_tag id (S i)).
+    assert (Bi : (Z.of_nat (S i) < usize_max)%Z) by lia.
+    assert (Hab : name_eqb a b = false) by (apply var_tag_neqb; lia).
+    assert (Hba : name_eqb b a = false) by (apply var_tag_neqb; lia).
+    destruct (set_order_tags c m En) as [_ E2n]. fold id in E2n.
+    set (m2 := mapi (fun i kv => (fst kv, mkDual2 (snd kv) [var_tag id i] [n1] [[n0]])) m) in *.
+    assert (K2 : keys m2 = keys m).
+    { unfold keys, m2, mapi. rewrite mapi_from_map.
+      rewrite (mapi_from_ext _ (fun _ kv => fst kv)) by (intros; reflexivity). apply mapi_from_const. }
+    assert (Ln2 : length m2 = length m) by (apply mapi_from_length).
+    assert (I2 : interval_of m2 x = i) by (unfold i, interval_of; rewrite K2, Ln2; reflexivity).
+    assert (Hs2 : ksorted m2) by (unfold ksorted; rewrite K2; exact Hs).
+    assert (N2 : forall t kx ky, nth_error m t = Some (kx, ky) ->
+               nth_error m2 t = Some (kx, mkDual2 ky [var_tag id t] [1] [[0]])).
+    { intros t kx ky E. unfold m2, mapi. rewrite mapi_from_nth_error, E. reflexivity. }
+    destruct (interp_at_form iops_d2 r m2 x Hs2 ltac:(lia) NN) as (p0 & p1 & p2 & A0 & A1 & A2 & AV).
+    rewrite I2 in A1, A2.
+    rewrite (N2 _ _ _ E0) in A0. rewrite (N2 _ _ _ E1) in A1. rewrite (N2 _ _ _ E2) in A2.
+    injection A0 as <-. injection A1 as <-. injection A2 as <-.
+    fold a b in AV.
+    set (d := form iops_d2 r (x0, mkDual2 y0 [var_tag id 0] [1] [[0]]) (x1, mkDual2 y1 [a] [1] [[0]])
+                (x2, mkDual2 y2 [b] [1] [[0]]) x) in *.
+    exists d.
+    assert (Gv : re2 d = Gf r x0 x1 x2 x y1 y2).
+    { unfold d. rewrite (form_hom iops_d2 re2 hom_d2). cbn [fst snd re2]. rewrite form_closed; auto. }
+    destruct (form_d2_spec a b Hab Hba r x0 (mkDual2 y0 [var_tag id 0] [1] [[0]]) x1 y1 x2 y2 x NN L01 L12 P1 P2)
+      as [S1 S2]. fold d in S1, S2. rewrite Gv in S1, S2.
+    destruct tags_facts as (TN & TL & TT). fold id in TT.
+    assert (GR1 : forall j, (j < length m)%nat ->
+              nth j (gradient1_2 d tags) 0 = gsel (G1f r x0 x1 x2 x) (G2f r x0 x1 x2 x) y1 y2 (sel_of i j)).
+    { intros j Hj. unfold gradient1_2. rewrite gradient1_gen_nth by (auto; lia). rewrite TT by auto.
+      change (lookup_or_zero (vs2 d) (du2 d) (var_tag id j)) with (lk1 d (var_tag id j)). rewrite S1.
+      unfold a, b. rewrite by_names_sel by lia. unfold gsel, G1f, G2f. destruct (sel_of i j); reflexivity. }
+    assert (GR2 : forall j k, (j < length m)%nat -> (k < length m)%nat ->
+              nth k (nth j (gradient2 d tags) []) 0 =
+              hsel (G11f r x0 x1 x2 x y1 y2) (G12f r x0 x1 x2 x y1 y2) (G12f r x0 x1 x2 x y1 y2)
+                   (G22f r x0 x1 x2 x y1 y2) (sel_of i j) (sel_of i k)).
+    { intros j k Hj Hk. rewrite gradient2_nth by (auto; lia). rewrite !TT by auto.
+      change (lookup2_or_zero (vs2 d) (dd2 d) (var_tag id j) (var_tag id k)) with (lk2 d (var_tag id j) (var_tag id k)).
+      rewrite S2. unfold a, b. rewrite !by_names_sel by lia. unfold hsel, G11f, G12f, G22f.
+      destruct (sel_of i j); destruct (sel_of i k); reflexivity. }
+    split; [|split; [|split; [|split]]].
+    - unfold interpolated_value. destruct (set_order_fields c OTwo) as (RR & _). rewrite RR, E2n. fold r.
+      rewrite AV. reflexivity.
+    - rewrite Gv. symmetry. apply (lookupR_closed r m x x0 y0 x1 y1 x2 y2); auto.
+    - intros j Hj. rewrite GR1 by auto.
+      apply (is_derive_ext (fun p => Gf r x0 x1 x2 x (y1 + sL (sel_of i j) * p) (y2 + sR (sel_of i j) * p))).
+      + intros p. symmetry. apply (lookupR_perturbed1 r m x j p x0 y0 x1 y1 x2 y2); auto.
+      + apply grad_sel; auto; intros; [apply closed_HA|apply closed_HB]; auto.
+    - intros j k Hj Hk. rewrite GR2 by auto.
+      destruct (hess_sel (Gf r x0 x1 x2 x) (G1f r x0 x1 x2 x) (G2f r x0 x1 x2 x) y1 y2
+                  (G11f r x0 x1 x2 x y1 y2) (G12f r x0 x1 x2 x y1 y2) (G12f r x0 x1 x2 x y1 y2) (G22f r x0 x1 x2 x y1 y2)
+                  P1 P2 (closed_HA r x0 x1 x2 x NN) (closed_HB r x0 x1 x2 x NN)
+                  (closed_H11 r x0 x1 x2 x NN y1 y2 P1 P2) (closed_H12 r x0 x1 x2 x NN y1 y2 P1 P2)
+                  (closed_H21 r x0 x1 x2 x NN y1 y2 P1 P2) (closed_H22 r x0 x1 x2 x NN y1 y2 P1 P2)
+                  (sel_of i j) (sel_of i k)) as (g1 & A & B).
+      exists g1. split; [|exact B]. revert A. apply filter_imp. intros q Hq.
+      apply (is_derive_ext (fun p => Gf r x0 x1 x2 x (y1 + sL (sel_of i j) * p + sL (sel_of i k) * q)
+                                          (y2 + sR (sel_of i j) * p + sR (sel_of i k) * q))); [|exact Hq].
+      intros p. symmetry. apply (lookupR_perturbed r m x j k p q x0 y0 x1 y1 x2 y2); auto.
+    - intros j Hj N1 N2'. assert (SN' : sel_of i j = SN).
+      { unfold sel_of. destruct (Nat.eqb_spec j i); [lia|]. destruct (Nat.eqb_spec j (S i)); [lia|]. reflexivity. }
+      split; [rewrite GR1 by auto; rewrite SN'; reflexivity|].
+      intros k Hk. rewrite !GR2 by auto. rewrite SN'. unfold hsel. destruct (sel_of i k); auto.
+  Qed.
+
+  Theorem grad1_exact :
+    exists d, interpolated_value (set_ad_order c OOne) x = Ok (ND d) /\ re d = lookupR r m x /\
+      (forall j, (j < length m)%nat ->
+         is_derive (fun p => lookupR r (add_val m j p) x) 0 (nth j (gradient1 d tags) 0)) /\
+      (forall j, (j < length m)%nat -> j <> i -> j <> S i -> nth j (gradient1 d tags) 0 = 0).
+  Proof.
+    destruct (sorted_bracket c m x SF) as (x0 & y0 & x1 & y1 & x2 & y2 & E0 & E1 & E2 & L01 & L12).
+    assert (SF' := SF). destruct SF' as (En & Hs & L).
+    fold i in E1, E2.
+    assert (Hi : (S i < length m)%nat) by (apply interval_of_lt; auto).
+    assert (P1 : 0 < y1) by (apply (Pos (x1, y1)); eapply nth_error_In; eauto).
+    assert (P2 : 0 < y2) by (apply (Pos (x2, y2)); eapply nth_error_In; eauto).
+    set (id := c_id c) in *. set (a := var_tag id i). set (b := var_tag id (S i)).
+    assert (Bi : (Z.of_nat (S i) < usize_max)%Z) by lia.
+    assert (Hab : name_eqb a b = false) by (apply var_tag_neqb; lia).
+    assert (Hba : name_eqb b a = false) by (apply var_tag_neqb; lia).
+    destruct (set_order_tags c m En) as [E1n _]. fold id in E1n.
+    set (m1 := mapi (fun i kv => (fst kv, mkDual (snd kv) [var_tag id i] [n1])) m) in *.
+    assert (K1 : keys m1 = keys m).
+    { unfold keys, m1, mapi. rewrite mapi_from_map.
+      rewrite (mapi_from_ext _ (fun _ kv => fst kv)) by (intros; reflexivity). apply mapi_from_const. }
+    assert (Ln1 : length m1 = length m) by (apply mapi_from_length).
+    assert (I1 : interval_of m1 x = i) by (unfold i, interval_of; rewrite K1, Ln1; reflexivity).
+    assert (Hs1 : ksorted m1) by (unfold ksorted; rewrite K1; exact Hs).
+    assert (N1 : forall t kx ky, nth_error m t = Some (kx, ky) ->
+               nth_error m1 t = Some (kx, mkDual ky [var_tag id t] [1])).
+    { intros t kx ky E. unfold m1, mapi. rewrite mapi_from_nth_error, E. reflexivity. }
+    destruct (interp_at_form iops_d r m1 x Hs1 ltac:(lia) NN) as (p0 & p1 & p2 & A0 & A1 & A2 & AV).
+    rewrite I1 in A1, A2.
+    rewrite (N1 _ _ _ E0) in A0. rewrite (N1 _ _ _ E1) in A1. rewrite (N1 _ _ _ E2) in A2.
+    injection A0 as <-. injection A1 as <-. injection A2 as <-.
+    fold a b in AV.
+    set (d := form iops_d r (x0, mkDual y0 [var_tag id 0] [1]) (x1, mkDual y1 [a] [1]) (x2, mkDual y2 [b] [1]) x) in *.
+    exists d.
+    assert (Gv : re d = Gf r x0 x1 x2 x y1 y2).
+    { unfold d. rewrite (form_hom iops_d re hom_d). cbn [fst snd re]. rewrite form_closed; auto. }
+    assert (S1 := form_d1_spec a b Hab Hba r x0 (mkDual y0 [var_tag id 0] [1]) x1 y1 x2 y2 x NN L01 L12 P1 P2).
+    cbn zeta in S1. fold d in S1. rewrite Gv in S1.
+    destruct tags_facts as (TN & TL & TT). fold id in TT.
+    assert (GR1 : forall j, (j < length m)%nat ->
+              nth j (gradient1 d tags) 0 = gsel (G1f r x0 x1 x2 x) (G2f r x0 x1 x2 x) y1 y2 (sel_of i j)).
+    { intros j Hj. unfold gradient1. rewrite gradient1_gen_nth by (auto; lia). rewrite TT by auto.
+      change (lookup_or_zero (vs d) (du d) (var_tag id j)) with (lk0 d (var_tag id j)). rewrite S1.
+      unfold a, b. rewrite by_names_sel by lia. unfold gsel, G1f, G2f. destruct (sel_of i j); reflexivity. }
+    split; [|split; [|split]].
+    - unfold interpolated_value. destruct (set_order_fields c OOne) as (RR & _). rewrite RR, E1n. fold r.
+      rewrite AV. reflexivity.
+    - rewrite Gv. symmetry. apply (lookupR_closed r m x x0 y0 x1 y1 x2 y2); auto.
+    - intros j Hj. rewrite GR1 by auto.
+      apply (is_derive_ext (fun p => Gf r x0 x1 x2 x (y1 + sL (sel_of i j) * p) (y2 + sR (sel_of i j) * p))).
+      + intros p. symmetry. apply (lookupR_perturbed1 r m x j p x0 y0 x1 y1 x2 y2); auto.
+      + apply grad_sel; auto; intros; [apply closed_HA|apply closed_HB]; auto.
+    - intros j Hj N1' N2'. rewrite GR1 by auto.
+      assert (SN' : sel_of i j = SN).
+      { unfold sel_of. destruct (Nat.eqb_spec j i); [lia|]. destruct (Nat.eqb_spec j (S i)); [lia|]. reflexivity. }
+      rewrite SN'. reflexivity.
+  Qed.
+End Tagged.
